@@ -19,6 +19,8 @@ def rng_range(ctx):
   if ctx.thorough:
     ns += [4096 + r for r in range(64)]
   seeds = [1, 0xDEADBEEF, (1 << 200) + 12345 + ctx.seed]
+  # non-zero seeds whose low words vanish (the generators reduce the seed modulo 2^32 / 2^64 / 2^160 ...)
+  odd_seeds = [1 << 32, 1 << 64, 3 << 64, 1 << 128, 1 << 160, 5 << 192, -(1 << 64)]
   for name, g in rng.RNGS.items():
     slow = name.startswith("subsetsum") or name.startswith("lcgnist")
     for n in (ns if not slow else ns[::7]):
@@ -32,6 +34,19 @@ def rng_range(ctx):
           ctx.check(r2 == r, "RandomBits is a function of (generator, n, seed)", dict(generator=name, n=n, seed=seed),
                     observed=[r, r2])
     ctx.check(rng.GetRng(name) is g, "GetRng(name) returns the registered generator", dict(generator=name))
+    if name != "urandom" and not name.startswith("subsetsum"):
+      for seed in odd_seeds:
+        if seed < 0 and name in ("mt19937", "pcg64", "philox", "sfc64", "shake128", "lcgnist", "java") + tuple(
+            k for k in rng.RNGS if k.startswith(("mwc", "lehmer", "trunclcg"))):
+          continue   # negative seeds are outside those generators' domains
+        for n in (1, 64, 65):
+          try:
+            rs = [g.RandomBits(n, seed=seed) for _ in range(3)]
+          except (ValueError, OverflowError, TypeError):
+            continue
+          ctx.case(key=(name, "lowzero", n, seed % 7))
+          ctx.check(len(set(rs)) == 1, "RandomBits is a function of (generator, n, seed) for a non-zero seed",
+                    dict(generator=name, n=n, seed=seed, seed_low_words_zero=True), observed=rs)
 
 
 def _java_next32(state):
